@@ -102,6 +102,14 @@ Fixpoint bools_eqb (a b : list bool) : bool :=
   | _, _ => false
   end.
 
+(* every label's claimed value is an integer without a size (what the label resolver stores) *)
+Definition labels_unsized (ns : list cnode) (syms : list value) : bool :=
+  forallb (fun n => match fst n with
+                    | XLabel s _ => match nth s syms VUnknown with
+                                    | VInt b => match bsz b with None => true | Some _ => false end
+                                    | _ => false end
+                    | _ => true end) ns.
+
 (* claimed: symbol values by full dotted name (absent = not an integer/bool/string: unknown), the bank
    definitions (index 0 = default bank) and the output bits *)
 Definition cert_check2 (indexed : bool) (defs : list ruledef) (ps : list pnode)
@@ -118,6 +126,7 @@ Definition cert_check2 (indexed : bool) (defs : list ruledef) (ps : list pnode)
       | EErr => false
       | EOk bs =>
         if negb (banks_eqb (Cursor.default_bank :: bs) banks) then false else
+        if negb (labels_unsized ns syms) then false else
         let st := reconstruct2 m banks defs max_bits ns st1 out (Cursor.init_cursor banks) None in
         match run_pass m banks defs max_bits true ns st with
         | Ok (_, Resolved) =>
